@@ -50,6 +50,8 @@ type canCall struct {
 	mode string // park | deaf | quick | drive
 	d    int    // quick: the handler answers after d ms
 	at   int    // the call is issued `at` ms after the scenario (c2s) resp. the carrier's handler (s2c) started
+	grp  bool   // the call's context is ALSO a child of the case's shared group context (errgroup / request scope / common
+	//             deadline): it ends in the instant in which the victim's context ends, with the same error
 }
 
 type canCase struct {
@@ -60,15 +62,28 @@ type canCase struct {
 	when   string // pre run race post
 	tc     int    // the victim's context ends at tc ms (absolute, scenario clock)
 	dl     bool   // … with context.DeadlineExceeded instead of context.Canceled
+	cz     bool   // … by the CancelCauseFunc of a context.WithCancelCause context, with a custom cause (Err is context.Canceled,
+	//               context.Cause — what net/http reports for an interrupted exchange — is the custom error)
 	fault  string // none stall reject fail : what the transport does to the victim side's notifications/cancelled
 	//                 on fj (what the foreign server does with the POST of the notice): none late stall timeout s503 reset
+	bc     bool   // MCPGODEBUG=blockingcancelnotify=1: mcp.call sends the notice synchronously (cancelCall) before it retires the call
 	rclose bool   // the RECEIVER of the victim's request starts a graceful Close 5 ms before the victim's context ends
 }
 
-func (c *canCase) cfgOp() string { return fmt.Sprintf("cfg tr=%s pv=%s", c.tr, c.pv) }
+func (c *canCase) cfgOp() string {
+	op := fmt.Sprintf("cfg tr=%s pv=%s", c.tr, c.pv)
+	if c.bc {
+		op += " bc=1"
+	}
+	return op
+}
 func (c *canCase) callOp(i int) string {
 	k := c.calls[i]
-	return fmt.Sprintf("c %d dir=%s meth=%s mode=%s d=%d at=%d", i, k.dir, k.meth, k.mode, k.d, k.at)
+	op := fmt.Sprintf("c %d dir=%s meth=%s mode=%s d=%d at=%d", i, k.dir, k.meth, k.mode, k.d, k.at)
+	if k.grp {
+		op += " g=1"
+	}
+	return op
 }
 func (c *canCase) cancelOp() string {
 	dl := 0
@@ -76,6 +91,9 @@ func (c *canCase) cancelOp() string {
 		dl = 1
 	}
 	op := fmt.Sprintf("x victim=%d when=%s tc=%d dl=%d fault=%s", c.victim, c.when, c.tc, dl, c.fault)
+	if c.cz {
+		op += " cz=1"
+	}
 	if c.rclose {
 		op += " rc=1"
 	}
@@ -93,6 +111,7 @@ const (
 	canLateMs     = 6000  // the last follow-up: after notifyCancellationTimeout
 	canFollowMs   = 2000  // a follow-up call gives up after this long
 	canStuckMs    = 20000 // a call that has not returned this long after the release is reported as not returned
+	canLateAckMs  = 1000  // fault=late: the Write / POST of the notice is acknowledged this long after it was handed over
 )
 
 type canEv struct {
@@ -103,6 +122,21 @@ type canEv struct {
 }
 
 type canTagKey struct{}
+type canMrtrKey struct{}
+
+var canWireMethod = map[string]string{"sample": methodCreateMessage, "elicit": methodElicit, "roots": methodListRoots, "ping": methodPing}
+
+// canMrtrRound classifies an incoming tools/call of the tool "mrtr": 0 = not that tool, 1 = first round (no input
+// responses yet), 2 = the retry that carries the input responses.
+func canMrtrRound(req Request) int {
+	if r, ok := req.(*CallToolRequest); ok && r.Params != nil && r.Params.Name == "mrtr" {
+		if len(r.Params.InputResponses) == 0 {
+			return 1
+		}
+		return 2
+	}
+	return 0
+}
 
 // canCtx is the context of one call: it ends when the harness says so (after logging `can`), with the error
 // the harness chose, or when its parent ends (with the parent's error); values come from the parent.
@@ -113,7 +147,13 @@ type canCtx struct {
 	mu     sync.Mutex
 	err    error
 	dlAt   time.Time
+	// cause != nil: the context is a context.WithCancelCause context (over the VALUES of parent); it is ended by its
+	// CancelCauseFunc with a custom cause
+	inner       context.Context
+	innerCancel context.CancelCauseFunc
 }
+
+var errCanCause = errors.New("verif: the caller gave up (custom cause)")
 
 func (c *canCtx) Deadline() (time.Time, bool) {
 	if !c.dlAt.IsZero() {
@@ -121,13 +161,26 @@ func (c *canCtx) Deadline() (time.Time, bool) {
 	}
 	return c.parent.Deadline()
 }
-func (c *canCtx) Done() <-chan struct{} { return c.done }
+func (c *canCtx) Done() <-chan struct{} {
+	if c.inner != nil {
+		return c.inner.Done()
+	}
+	return c.done
+}
 func (c *canCtx) Err() error {
+	if c.inner != nil {
+		return c.inner.Err()
+	}
 	c.mu.Lock()
 	defer c.mu.Unlock()
 	return c.err
 }
-func (c *canCtx) Value(k any) any { return c.parent.Value(k) }
+func (c *canCtx) Value(k any) any {
+	if c.inner != nil {
+		return c.inner.Value(k) // context.Cause finds the cancelCtx of inner
+	}
+	return c.parent.Value(k)
+}
 
 type canH struct {
 	mu       sync.Mutex
@@ -142,6 +195,7 @@ type canH struct {
 	extra    int
 	returned sync.WaitGroup
 	follow   chan struct{} // closed when the carrier may make its nested follow-up call
+	group    *canCtx       // the shared context of the calls with grp (not a call: ending it is not logged)
 	relAll   chan struct{}
 	wfault   map[string]int // what the fault injection did
 }
@@ -155,17 +209,27 @@ func (h *canH) log(what string, id int, arg string) {
 // newCtx makes the context of call i below parent.
 func (h *canH) newCtx(parent context.Context, i int) *canCtx {
 	c := &canCtx{parent: parent, done: make(chan struct{})}
-	if i == h.c.victim && h.c.dl {
+	member := i == h.c.victim || (i >= 0 && i < len(h.c.calls) && h.c.calls[i].grp)
+	if member && h.c.dl {
 		c.dlAt = h.t0.Add(time.Duration(h.c.tc) * time.Millisecond)
+	}
+	if member && h.c.cz {
+		c.inner, c.innerCancel = context.WithCancelCause(context.WithoutCancel(parent))
 	}
 	h.mu.Lock()
 	h.ctxs[i] = c
 	h.mu.Unlock()
-	if parent.Done() != nil {
+	var grp <-chan struct{}
+	if i >= 0 && i < len(h.c.calls) && h.c.calls[i].grp {
+		grp = h.group.done
+	}
+	if parent.Done() != nil || grp != nil {
 		go func() {
 			select {
 			case <-parent.Done():
 				h.end(i, parent.Err())
+			case <-grp:
+				h.end(i, h.group.Err())
 			case <-c.done:
 			}
 		}()
@@ -191,6 +255,9 @@ func (h *canH) end(i int, err error) {
 		c.err = err
 		c.mu.Unlock()
 		close(c.done)
+		if c.innerCancel != nil {
+			c.innerCancel(errCanCause)
+		}
 	})
 }
 
@@ -210,6 +277,17 @@ func (h *canH) sendMW(next MethodHandler) MethodHandler {
 		tag, ok := ctx.Value(canTagKey{}).(int)
 		if !ok {
 			tag = canIgnore
+			// a server→client call made by serverMultiRoundTripMiddleware (mcp/mrtr.go) to fulfil an input request of
+			// the carrier tool "mrtr": it is the declared nested call with that method; its context is a child of the
+			// middleware's (errgroup) context
+			if ctx.Value(canMrtrKey{}) != nil {
+				for j, k := range h.c.calls {
+					if k.dir == "s2cn" && canWireMethod[k.meth] == method {
+						tag = j
+						ctx = context.WithValue(h.newCtx(ctx, j), canTagKey{}, j)
+					}
+				}
+			}
 		}
 		if p := req.GetParams(); p != nil && !p.isNil() {
 			m := p.GetMeta()
@@ -282,6 +360,15 @@ func (h *canH) recvMW(next MethodHandler) MethodHandler {
 		if tag >= canBlockerTag {
 			time.Sleep(canBlockMs * time.Millisecond) // a notification handler: holds the dispatcher
 			return next(ctx, method, req)
+		}
+		round := canMrtrRound(req)
+		if round == 1 && h.c.pv >= protocolVersion20260728 {
+			// 2026-07-28: the client's clientMultiRoundTripMiddleware fulfils the input requests itself and RETRIES the
+			// call as a new request; the first round answers at once and is not "the handler" of the call: the retry is
+			return next(ctx, method, req)
+		}
+		if round == 1 {
+			ctx = context.WithValue(ctx, canMrtrKey{}, true) // legacy: serverMultiRoundTripMiddleware calls the client
 		}
 		k, ok := h.spec(tag)
 		if !ok {
@@ -364,6 +451,8 @@ func (h *canH) issue(ctx context.Context, tag int, dir, meth string, cs *ClientS
 			_, err = cs.CallTool(ctx, &CallToolParams{Name: "t", Arguments: map[string]any{}})
 		case "drive":
 			_, err = cs.CallTool(ctx, &CallToolParams{Name: "drive", Arguments: map[string]any{}})
+		case "mrtr":
+			_, err = cs.CallTool(ctx, &CallToolParams{Name: "mrtr", Arguments: map[string]any{}})
 		case "ping":
 			err = cs.Ping(ctx, &PingParams{})
 		default:
@@ -527,10 +616,19 @@ type canFaultConn struct {
 
 func (c *canFaultConn) Write(ctx context.Context, msg jsonrpc.Message) error {
 	req, ok := msg.(*jsonrpc.Request)
-	if done, err := canApplyFault(ctx, c.h.faultFor(ok && req.Method == notificationCancelled, c.side)); done {
+	f := c.h.faultFor(ok && req.Method == notificationCancelled, c.side)
+	if done, err := canApplyFault(ctx, f); done {
 		return err
 	}
-	return c.Connection.Write(ctx, msg)
+	err := c.Connection.Write(ctx, msg)
+	if f == "late" && err == nil { // handed over at once, acknowledged late (a slow flush): not a fault
+		select {
+		case <-time.After(canLateAckMs * time.Millisecond):
+		case <-ctx.Done():
+			return ctx.Err()
+		}
+	}
+	return err
 }
 
 // canFaultRT wraps the client's http.RoundTripper: the POST that carries the victim's cancel notice is faulted.
@@ -544,8 +642,21 @@ func (f *canFaultRT) RoundTrip(req *http.Request) (*http.Response, error) {
 		body, _ := io.ReadAll(req.Body)
 		req.Body.Close()
 		req.Body = io.NopCloser(strings.NewReader(string(body)))
-		if done, err := canApplyFault(req.Context(), f.h.faultFor(strings.Contains(string(body), `"`+notificationCancelled+`"`), "client")); done {
+		ft := f.h.faultFor(strings.Contains(string(body), `"`+notificationCancelled+`"`), "client")
+		if done, err := canApplyFault(req.Context(), ft); done {
 			return nil, err
+		}
+		if ft == "late" { // the server processes the POST at once, the client sees the acknowledgement late: not a fault
+			resp, err := f.rt.RoundTrip(req)
+			select {
+			case <-time.After(canLateAckMs * time.Millisecond):
+			case <-req.Context().Done():
+				if err == nil {
+					resp.Body.Close()
+				}
+				return nil, req.Context().Err()
+			}
+			return resp, err
 		}
 	}
 	return f.rt.RoundTrip(req)
@@ -583,7 +694,7 @@ func (b *canForeignBody) Read(p []byte) (int, error) {
 	case <-b.ready:
 		return b.data.Read(p)
 	case <-b.ctx.Done():
-		return 0, b.ctx.Err()
+		return 0, context.Cause(b.ctx) // as net/http: an interrupted body read reports context.Cause of the request's context
 	}
 }
 func (b *canForeignBody) Close() error { return nil }
@@ -662,7 +773,7 @@ func (f *canForeign) RoundTrip(req *http.Request) (*http.Response, error) {
 				close(ch)
 			}
 			if fault == "late" { // processed at once, acknowledged late
-				time.Sleep(time.Second)
+				time.Sleep(canLateAckMs * time.Millisecond)
 			}
 		}
 		return f.resp(req, http.StatusAccepted, "", now("")), nil
@@ -744,10 +855,16 @@ func canRunCase(t *testing.T, out *verifOut, id string, c *canCase) {
 	synctest.Test(t, func(t *testing.T) {
 		h := &canH{t0: time.Now(), c: c, ctxs: map[int]*canCtx{}, release: map[int]chan struct{}{}, finished: map[int]bool{}, hcSeen: map[int]bool{},
 			nbeg: map[int]int{}, follow: make(chan struct{}), wfault: map[string]int{}}
+		h.group = &canCtx{parent: context.Background(), done: make(chan struct{})}
 		for i := range c.calls {
 			h.release[i] = make(chan struct{})
 		}
 		status := "ok"
+		if c.bc {
+			old := blockingcancelnotify
+			blockingcancelnotify = "1"
+			defer func() { blockingcancelnotify = old }()
+		}
 		defer func() {
 			if r := recover(); r != nil {
 				recs = append(recs, [3]string{c.cfgOp(), "panic", "panic"})
@@ -756,7 +873,7 @@ func canRunCase(t *testing.T, out *verifOut, id string, c *canCase) {
 		}()
 		carrier := -1
 		for i, k := range c.calls {
-			if k.meth == "drive" {
+			if k.meth == "drive" || (k.meth == "mrtr" && k.mode == "drive") {
 				carrier = i
 			}
 		}
@@ -767,6 +884,29 @@ func canRunCase(t *testing.T, out *verifOut, id string, c *canCase) {
 		server.AddSendingMiddleware(h.sendMW)
 		server.AddTool(&Tool{Name: "t", InputSchema: map[string]any{"type": "object"}}, func(ctx context.Context, req *CallToolRequest) (*CallToolResult, error) {
 			return &CallToolResult{Content: []Content{&TextContent{Text: "ok"}}}, nil
+		})
+		server.AddTool(&Tool{Name: "mrtr", InputSchema: map[string]any{"type": "object"}}, func(ctx context.Context, req *CallToolRequest) (*CallToolResult, error) {
+			if len(req.Params.InputResponses) > 0 {
+				return &CallToolResult{Content: []Content{&TextContent{Text: "ok"}}}, nil
+			}
+			irs := InputRequestMap{}
+			for _, k := range c.calls {
+				if k.dir != "s2cn" {
+					continue
+				}
+				switch k.meth {
+				case "sample":
+					irs["sample"] = &CreateMessageParams{MaxTokens: 5, Messages: []*SamplingMessage{{Role: "user", Content: &TextContent{Text: "x"}}}}
+				case "elicit":
+					irs["elicit"] = &ElicitParams{Message: "x"}
+				case "roots":
+					irs["roots"] = &ListRootsParams{}
+				}
+			}
+			if len(irs) == 0 {
+				irs["elicit"] = &ElicitParams{Message: "x"}
+			}
+			return &CallToolResult{InputRequests: irs, RequestState: "round-1"}, nil
 		})
 		server.AddTool(&Tool{Name: "drive", InputSchema: map[string]any{"type": "object"}}, func(ctx context.Context, req *CallToolRequest) (*CallToolResult, error) {
 			h.script(ctx, req.Session, carrier)
@@ -868,7 +1008,16 @@ func canRunCase(t *testing.T, out *verifOut, id string, c *canCase) {
 			if c.dl {
 				err = context.DeadlineExceeded
 			}
-			h.end(c.victim, err)
+			if c.calls[c.victim].grp { // the shared context ends: the victim's and every other member's context with it
+				h.group.once.Do(func() {
+					h.group.mu.Lock()
+					h.group.err = err
+					h.group.mu.Unlock()
+					close(h.group.done)
+				})
+			} else {
+				h.end(c.victim, err)
+			}
 			time.Sleep(50 * time.Millisecond)
 			synctest.Wait()
 			// follow-up calls while everything else is still parked
@@ -927,11 +1076,17 @@ func canRunCase(t *testing.T, out *verifOut, id string, c *canCase) {
 		}
 		synctest.Wait()
 
-		recs = append(recs, [3]string{c.cfgOp(), status, strings.Join([]string{"tr=" + c.tr, "pv=" + c.pv, status}, ",")})
+		recs = append(recs, [3]string{c.cfgOp(), status, strings.Join([]string{"tr=" + c.tr, "pv=" + c.pv, status, map[bool]string{true: "blockingcancelnotify", false: "detached-notifier"}[c.bc]}, ",")})
 		for i, k := range c.calls {
 			recs = append(recs, [3]string{c.callOp(i), "ok", strings.Join([]string{"dir=" + k.dir, k.dir + ":" + k.meth, "mode=" + k.mode, "tr=" + c.tr + "/" + k.dir}, ",")})
 		}
 		vd := c.calls[c.victim].dir
+		ngrp := 1
+		for i, k := range c.calls {
+			if k.grp && i != c.victim {
+				ngrp++
+			}
+		}
 		scope := "peer-cancel-expected"
 		if strings.HasPrefix(c.tr, "sl") && !strings.Contains(c.tr[2:], "p") {
 			scope = "stateless-nocancel" // request and notice are served by different one-shot connections: the clause peerNotCancelled does not apply
@@ -940,7 +1095,8 @@ func canRunCase(t *testing.T, out *verifOut, id string, c *canCase) {
 			scope += ",receiver-closing"
 		}
 		recs = append(recs, [3]string{c.cancelOp(), "ok", strings.Join([]string{scope, "when=" + c.when, "fault=" + c.fault, "victim=" + vd, "tr=" + c.tr + "/" + vd + "/" + c.when,
-			"victim-mode=" + c.calls[c.victim].mode, map[bool]string{true: "deadline", false: "cancel"}[c.dl]}, ",")})
+			"victim-mode=" + c.calls[c.victim].mode, map[bool]string{true: "deadline", false: map[bool]string{true: "cancel-cause", false: "cancel"}[c.cz]}[c.dl],
+			"cancelled-together=" + canBucket(ngrp)}, ",")})
 		for seq, e := range evs {
 			op := fmt.Sprintf("e %d %s %d", seq, e.what, e.id)
 			obs := fmt.Sprintf("t=%d", e.ms)
@@ -985,7 +1141,19 @@ func canJSON(tr string) bool         { return canStreamable(tr) && strings.Conta
 // responses every server→client message travels on the standalone stream (shj, shje have one); faults on the
 // server side of an HTTP transport are not injected (the handler creates the transport itself): there the
 // victim of a faulted cancellation is a client→server call.
+// canGen: in a twelfth of the cases whose notice is not held up by the transport the compatibility switch
+// MCPGODEBUG=blockingcancelnotify=1 is on (the caller then waits for the notice to be written, by design: with a
+// transport that stalls or acknowledges late it would not return promptly — the documented reason for the default).
 func canGen(rng *rand.Rand, tr string) *canCase {
+	c := canGen0(rng, tr)
+	switch c.fault {
+	case "none", "reject", "s503", "reset":
+		c.bc = rng.Intn(12) == 0
+	}
+	return c
+}
+
+func canGen0(rng *rand.Rand, tr string) *canCase {
 	c := &canCase{tr: tr, pv: canLegacy[rng.Intn(len(canLegacy))], fault: "none"}
 	isNew := strings.HasPrefix(tr, "sl") && strings.Contains(tr[2:], "p")
 	if isNew {
@@ -1003,7 +1171,86 @@ func canGen(rng *rand.Rand, tr string) *canCase {
 		}
 	}
 	at := func() int { return rng.Intn(4) }
-	if s2c {
+	if rng.Intn(9) == 0 {
+		// A GROUP of calls sharing one context (errgroup, request scope, common deadline) that ends at once: 2-7 or
+		// 17-32 members (more than any small constant of the code), client→server or nested server→client inside one
+		// carrier, plus bystanders whose contexts do not end.
+		n := 2 + rng.Intn(6)
+		if rng.Intn(2) == 0 {
+			n = 17 + rng.Intn(16)
+		}
+		first := 0
+		if s2c {
+			c.calls = append(c.calls, canCall{dir: "c2s", meth: "drive", mode: "drive"})
+			first = 1
+		}
+		for k := 0; k < n; k++ {
+			m, d := mode()
+			if s2c {
+				c.calls = append(c.calls, canCall{dir: "s2cn", meth: []string{"sample", "elicit", "roots", "ping"}[rng.Intn(4)], mode: m, d: d, at: at(), grp: true})
+			} else {
+				meth := []string{"tool", "tool", "ping"}[rng.Intn(3)]
+				if isNew {
+					meth = "tool"
+				}
+				c.calls = append(c.calls, canCall{dir: "c2s", meth: meth, mode: m, d: d, at: at(), grp: true})
+			}
+		}
+		for k := rng.Intn(3); k > 0; k-- { // bystanders
+			m, d := mode()
+			dir := "c2s"
+			if s2c && rng.Intn(2) == 0 {
+				dir = "s2cn"
+			}
+			meth := "tool"
+			if dir != "c2s" {
+				meth = "roots"
+			}
+			c.calls = append(c.calls, canCall{dir: dir, meth: meth, mode: m, d: d, at: at()})
+		}
+		c.victim = first + rng.Intn(n)
+		v := &c.calls[c.victim]
+		v.mode, v.d = "park", 0
+		switch rng.Intn(8) {
+		case 0, 1:
+			c.dl = true
+		case 2, 3:
+			c.cz = true
+		}
+		c.when = "run"
+		c.tc = 3 + 10 + rng.Intn(20)
+		if s2c {
+			c.tc++
+		}
+		pipe := tr == "mem" || tr == "io"
+		switch {
+		case tr == "fj":
+			c.fault = []string{"none", "late", "late", "stall", "timeout", "s503"}[rng.Intn(6)]
+		case (pipe || !s2c) && !canStateless(tr):
+			c.fault = []string{"none", "late", "late", "stall", "reject"}[rng.Intn(5)]
+		}
+		return c
+	}
+	if s2c && rng.Intn(4) == 0 {
+		// the carrier is a tool that asks for input (mcp/mrtr.go): for a legacy client serverMultiRoundTripMiddleware
+		// makes the server→client calls itself (one per input request, concurrently, on an errgroup context derived
+		// from the handler's) and re-invokes the handler.  The victim is the carrier or a bystander (a failing input
+		// request fails the tool call by design, so no input request is a victim).
+		c.calls = append(c.calls, canCall{dir: "c2s", meth: "mrtr", mode: "drive"})
+		for _, m := range []string{"sample", "elicit", "roots"} {
+			if rng.Intn(2) == 0 || (m == "roots" && len(c.calls) == 1) {
+				md, d := mode()
+				c.calls = append(c.calls, canCall{dir: "s2cn", meth: m, mode: md, d: d})
+			}
+		}
+		if rng.Intn(2) == 0 {
+			m, d := mode()
+			c.calls = append(c.calls, canCall{dir: "c2s", meth: []string{"tool", "ping"}[rng.Intn(2)], mode: m, d: d, at: at()})
+			if rng.Intn(2) == 0 {
+				c.victim = len(c.calls) - 1
+			}
+		}
+	} else if s2c {
 		c.calls = append(c.calls, canCall{dir: "c2s", meth: "drive", mode: "drive"})
 		n := 1 + rng.Intn(3)
 		for k := 0; k < n; k++ {
@@ -1028,14 +1275,20 @@ func canGen(rng *rand.Rand, tr string) *canCase {
 			m, d := mode()
 			meth := []string{"tool", "tool", "ping"}[rng.Intn(3)]
 			if isNew {
-				meth = "tool"
+				// 2026-07-28: "mrtr" = a tool that asks for input; clientMultiRoundTripMiddleware fulfils it and retries
+				meth = []string{"tool", "mrtr"}[rng.Intn(2)]
 			}
 			c.calls = append(c.calls, canCall{dir: "c2s", meth: meth, mode: m, d: d, at: at()})
 		}
 		c.victim = rng.Intn(len(c.calls))
 	}
 	v := &c.calls[c.victim]
-	c.dl = rng.Intn(4) == 0
+	switch rng.Intn(8) {
+	case 0, 1:
+		c.dl = true
+	case 2, 3:
+		c.cz = true
+	}
 	c.when = []string{"pre", "run", "run", "race", "post"}[rng.Intn(5)]
 	if v.mode == "drive" || (c.when == "pre" && canStateless(tr)) {
 		c.when = "run" // a stateless server has no dispatcher shared between two POSTs: nothing can be queued in front of the call
@@ -1077,10 +1330,25 @@ func canGen(rng *rand.Rand, tr string) *canCase {
 		// client's response-header timeout / 503 / connection reset
 		c.fault = []string{"late", "stall", "timeout", "timeout", "s503", "reset"}[rng.Intn(6)]
 	}
+	if c.fault != "none" && tr != "fj" && rng.Intn(4) == 0 {
+		c.fault = "late" // handed over at once, acknowledged a second later: not a fault
+	}
 	if pipe && c.fault == "none" && c.when == "run" && v.mode != "drive" && c.tc > 5 && rng.Intn(5) == 0 {
 		c.rclose = true // the receiver closes gracefully while the call is in flight; only then the caller cancels
 	}
 	return c
+}
+
+func canBucket(n int) string {
+	switch {
+	case n <= 1:
+		return "1"
+	case n <= 4:
+		return "2-4"
+	case n <= 16:
+		return "5-16"
+	}
+	return ">16"
 }
 
 func canParse(lines []string) (*canCase, bool) {
@@ -1101,10 +1369,11 @@ func canParse(lines []string) (*canCase, bool) {
 		switch f[0] {
 		case "cfg":
 			c.tr, c.pv = kv(f, "tr"), kv(f, "pv")
+			c.bc = kv(f, "bc") == "1"
 		case "c":
 			d, _ := strconv.Atoi(kv(f, "d"))
 			at, _ := strconv.Atoi(kv(f, "at"))
-			c.calls = append(c.calls, canCall{dir: kv(f, "dir"), meth: kv(f, "meth"), mode: kv(f, "mode"), d: d, at: at})
+			c.calls = append(c.calls, canCall{dir: kv(f, "dir"), meth: kv(f, "meth"), mode: kv(f, "mode"), d: d, at: at, grp: kv(f, "g") == "1"})
 		case "x":
 			c.victim, _ = strconv.Atoi(kv(f, "victim"))
 			c.when = kv(f, "when")
@@ -1112,6 +1381,7 @@ func canParse(lines []string) (*canCase, bool) {
 			c.dl = kv(f, "dl") == "1"
 			c.fault = kv(f, "fault")
 			c.rclose = kv(f, "rc") == "1"
+			c.cz = kv(f, "cz") == "1"
 		}
 	}
 	return c, c.tr != "" && len(c.calls) > 0 && c.victim >= 0 && c.victim < len(c.calls)
